@@ -2,7 +2,8 @@
    Everything is proved for an arbitrary key type with a decidable equality and a
    strict total order; Instances.v discharges these laws for Go strings (byte lists)
    and for (kind, name) pairs. *)
-From Verif Require Import Base.Prelude Repl.Model.
+From Verif Require Import Base.Prelude.
+From Verif Require Import Repl.Model.
 From Coq Require Import Sorting.Sorted Sorting.Permutation.
 
 Section Order.
